@@ -54,7 +54,26 @@ def _run(cx, rid, f, names, ref, text):
         cx.advisory(rid, key + ":not-analysable", f.where(),
                     "decision table not extractable (%s): clause not claimed for this run" % e)
         return
-    bad, checked = dec.compare(rows, atoms, ref)
+    asked = set()
+
+    def ref_rec(get):
+        def g2(k):
+            asked.add(k)
+            return get(k)
+        return ref(g2)
+    bad, checked = dec.compare(rows, atoms, ref_rec)
+    unk = [k for k in atoms.domains if k not in asked]
+    unknown = sorted(str(k[1] if len(k) == 2 else "%s ? %s" % (k[1], k[2])) for k in unk)
+    callee = getattr(atoms, "callee", {})
+    # conditions computed by a std adaptor (Option::is_some_and with a closure, ...) are opaque to the extraction; a condition
+    # that is a call of a function of this crate is a real, different condition and is compared
+    opaque_only = bool(unk) and all(k[0] == "call" and str(callee.get(k, "")).split("::")[0] in ("std", "core", "alloc") for k in unk)
+    if bad and opaque_only:
+        # the function decides through conditions the reference has no name for (a std adaptor with a closure, a new
+        # helper ...): the tables are not comparable, which is not a verdict
+        cx.advisory(rid, key + ":table", f.where(),
+                    "decision table uses conditions the reference cannot interpret (%s): clause not decided for this run" % ", ".join(unknown[:4]))
+        return
     if bad:
         a, got, exp = bad[0]
         pretty = {(k[1] if len(k) == 2 else "%s ? %s" % (k[1], k[2])): v for k, v in a.items()}
